@@ -1,0 +1,172 @@
+// Copyright © 2022-2026 Obol Labs Inc. Licensed under the terms of a Business Source License 1.1
+
+//go:build verif
+
+// Verification contracts (comments only; read by /verif/govc, never compiled into charon).
+package dkg
+
+//@ pure pb.FrostRound1Casts.GetCasts pb.FrostRound1Cast.GetKey pb.FrostRound1Cast.GetCommitments pb.FrostMsgKey.GetSourceId pb.FrostMsgKey.GetTargetId pb.FrostMsgKey.GetValIdx
+//@ pure pb.FrostRound2Casts.GetCasts pb.FrostRound2Cast.GetKey pb.FrostRound1P2P.GetShares pb.FrostRound1ShamirShare.GetKey p2p.PeerName host.Host.ID
+
+// keyOK(k, src, n): a broadcast key names its sender, the broadcast target 0 and a validator below n.
+//@ spec func keyOK(k *pb.FrostMsgKey, src int, n int) bool = int(k.GetSourceId()) == src && k.GetTargetId() == 0 && int(k.GetValIdx()) >= 0 && int(k.GetValIdx()) < n
+
+//@ func newBcastCallback$1
+//@ props C11
+//@ callreq send round1CastsRecv: msgID == round1CastID && !has(old(dedupRound1Casts), pID) && has(dedupRound1Casts, pID)
+//@ callreq send round1CastsRecv: has(peers, pID) && a1 == m.(*pb.FrostRound1Casts)
+//@ callreq send round1CastsRecv: forall(i, 0, len(a1.GetCasts()), keyOK(a1.GetCasts()[i].GetKey(), peers[pID].ShareIdx, numVals) && len(a1.GetCasts()[i].GetCommitments()) == threshold)
+//@ callreq send round2CastsRecv: msgID == round2CastID && !has(old(dedupRound2Casts), pID) && has(dedupRound2Casts, pID)
+//@ callreq send round2CastsRecv: has(peers, pID) && a1 == m.(*pb.FrostRound2Casts)
+//@ callreq send round2CastsRecv: forall(i, 0, len(a1.GetCasts()), keyOK(a1.GetCasts()[i].GetKey(), peers[pID].ShareIdx, numVals))
+//@ ensures ncalls("send round1CastsRecv") + ncalls("send round2CastsRecv") <= 1
+//@ ensures forallk(k, old(dedupRound1Casts), has(dedupRound1Casts, k)) && forallk(k, old(dedupRound2Casts), has(dedupRound2Casts, k))
+//@ ensures msgID != round1CastID ==> dedupRound1Casts == old(dedupRound1Casts)
+//@ ensures msgID != round2CastID ==> dedupRound2Casts == old(dedupRound2Casts)
+//@ loop 1 invariant forall(i, 0, $i, keyOK(msg.GetCasts()[i].GetKey(), peerNode.ShareIdx, numVals) && len(msg.GetCasts()[i].GetCommitments()) == threshold)
+//@ loop 2 invariant forall(i, 0, $i, keyOK(msg.GetCasts()[i].GetKey(), peerNode.ShareIdx, numVals))
+//@ canary result != nil
+//@ canary ncalls("send round1CastsRecv") == 0
+
+//@ func newP2PCallback$1
+//@ props C11
+//@ callreq send round1P2PRecv: !old(dedupRound1P2P)[pID] && dedupRound1P2P[pID]
+//@ callreq send round1P2PRecv: has(peers, pID) && has(peers, p2pNode.ID()) && a1 == req.(*pb.FrostRound1P2P)
+//@ callreq send round1P2PRecv: forall(i, 0, len(a1.GetShares()), int(a1.GetShares()[i].GetKey().GetSourceId()) == peers[pID].ShareIdx && int(a1.GetShares()[i].GetKey().GetTargetId()) == peers[p2pNode.ID()].ShareIdx && int(a1.GetShares()[i].GetKey().GetValIdx()) >= 0 && int(a1.GetShares()[i].GetKey().GetValIdx()) < numVals)
+//@ ensures ncalls("send round1P2PRecv") <= 1
+//@ ensures forallk(k, old(dedupRound1P2P), old(dedupRound1P2P)[k] ==> dedupRound1P2P[k])
+//@ loop 1 invariant forall(i, 0, $i, int(msg.GetShares()[i].GetKey().GetSourceId()) == sourcePeer.ShareIdx && int(msg.GetShares()[i].GetKey().GetTargetId()) == targetPeer.ShareIdx && int(msg.GetShares()[i].GetKey().GetValIdx()) >= 0 && int(msg.GetShares()[i].GetKey().GetValIdx()) < numVals)
+//@ canary r2 != nil
+//@ canary ncalls("send round1P2PRecv") == 0
+
+//@ func newFrostParticipants
+//@ props C11
+//@ requires numNodes < 1000000
+//@ callreq frost.NewDkgParticipant: a1 == shareIdx && a2 == threshold && a3 == dgkCtx
+//@ callreq frost.NewDkgParticipant: forall(i, 0, len(a5), a5[i] != shareIdx && a5[i] >= 1 && a5[i] <= numNodes)
+//@ callreq frost.NewDkgParticipant: all(j, uint32, j >= 1 && j <= numNodes && j != shareIdx ==> exists(i, 0, len(a5), a5[i] == j))
+//@ ensures r1 == nil ==> len(r0) == int(numValidators) && all(v, uint32, v < numValidators <==> has(r0, v))
+//@ loop 1 invariant i >= 1 && i <= numNodes + 1
+//@ loop 1 invariant forall(k, 0, len(otherIDs), otherIDs[k] != shareIdx && otherIDs[k] >= 1 && otherIDs[k] < i)
+//@ loop 1 invariant all(j, uint32, j >= 1 && j < i && j != shareIdx ==> exists(k, 0, len(otherIDs), otherIDs[k] == j))
+//@ loop 2 invariant len(resp) == $i && all(v, uint32, int(v) < $i <==> has(resp, v))
+//@ canary r1 != nil
+
+//@ func round1
+//@ props C11
+//@ ensures r2 == nil ==> forallk(x, validators, has(r0, msgKey{ValIdx: x, SourceID: validators[x].Id, TargetID: 0}))
+//@ ensures r2 == nil ==> forallk(k, r0, has(validators, k.ValIdx) && k.SourceID == validators[k.ValIdx].Id && k.TargetID == 0)
+//@ ensures r2 == nil ==> forallk(k, r1, has(validators, k.ValIdx) && k.SourceID == validators[k.ValIdx].Id)
+//@ loop 1 invariant forall(j, 0, $i, has(castResults, msgKey{ValIdx: $ks[j], SourceID: validators[$ks[j]].Id, TargetID: 0}))
+//@ loop 1 invariant forallk(k, castResults, has(validators, k.ValIdx) && k.SourceID == validators[k.ValIdx].Id && k.TargetID == 0)
+//@ loop 1 invariant forallk(k, p2pResults, has(validators, k.ValIdx) && k.SourceID == validators[k.ValIdx].Id)
+//@ loop 2 invariant forallk(k, p2pResults, has(validators, k.ValIdx) && k.SourceID == validators[k.ValIdx].Id)
+//@ canary r2 != nil
+
+//@ spec func sameCast(p *frost.Round1Bcast, c frost.Round1Bcast) bool = p != nil && p.Verifiers == c.Verifiers && p.Wi == c.Wi && p.Ci == c.Ci
+//@ spec func sameShare(p *sharing.ShamirShare, c sharing.ShamirShare) bool = p != nil && p.Id == c.Id && p.Value == c.Value
+
+// castsFor / sharesFor: m holds exactly the round 1 messages of validator v, keyed by their source.
+//@ spec func castsFor(m map[uint32]*frost.Round1Bcast, all map[msgKey]frost.Round1Bcast, v uint32) bool = forallk(k, all, k.ValIdx == v ==> has(m, k.SourceID)) && forallk(s, m, existsk(k, all, k.ValIdx == v && k.SourceID == s && sameCast(m[s], all[k])))
+//@ spec func sharesFor(m map[uint32]*sharing.ShamirShare, all map[msgKey]sharing.ShamirShare, v uint32) bool = forallk(k, all, k.ValIdx == v ==> has(m, k.SourceID)) && forallk(s, m, existsk(k, all, k.ValIdx == v && k.SourceID == s && sameShare(m[s], all[k])))
+
+//@ func getRound2Inputs
+//@ ensures castsFor(r0, castR1, vIdx) && sharesFor(r1, p2pR1, vIdx)
+//@ props C11
+//@ ensures forallk(k, castR1, k.ValIdx == vIdx ==> has(r0, k.SourceID))
+//@ ensures forallk(s, r0, existsk(k, castR1, k.ValIdx == vIdx && k.SourceID == s && sameCast(r0[s], castR1[k])))
+//@ ensures forallk(k, p2pR1, k.ValIdx == vIdx ==> has(r1, k.SourceID))
+//@ ensures forallk(s, r1, existsk(k, p2pR1, k.ValIdx == vIdx && k.SourceID == s && sameShare(r1[s], p2pR1[k])))
+//@ loop 1 invariant forall(j, 0, $i, $ks[j].ValIdx == vIdx ==> has(castMap, $ks[j].SourceID))
+//@ loop 1 invariant forallk(s, castMap, existsk(k, castR1, k.ValIdx == vIdx && k.SourceID == s && sameCast(castMap[s], castR1[k])))
+//@ loop 2 invariant forall(j, 0, $i, $ks[j].ValIdx == vIdx ==> has(shareMap, $ks[j].SourceID))
+//@ loop 2 invariant forallk(s, shareMap, existsk(k, p2pR1, k.ValIdx == vIdx && k.SourceID == s && sameShare(shareMap[s], p2pR1[k])))
+
+//@ func round2
+//@ props C11
+//@ callreq v.Round2: castsFor(a1, castR1, vIdx) && sharesFor(a2, p2pR1, vIdx)
+//@ ensures r1 == nil ==> forallk(x, validators, has(r0, msgKey{ValIdx: x, SourceID: validators[x].Id, TargetID: 0}))
+//@ ensures r1 == nil ==> forallk(k, r0, has(validators, k.ValIdx) && k.SourceID == validators[k.ValIdx].Id && k.TargetID == 0)
+//@ loop 1 invariant forall(j, 0, $i, has(castResults, msgKey{ValIdx: $ks[j], SourceID: validators[$ks[j]].Id, TargetID: 0}))
+//@ loop 1 invariant forallk(k, castResults, has(validators, k.ValIdx) && k.SourceID == validators[k.ValIdx].Id && k.TargetID == 0)
+//@ canary r1 != nil
+
+//@ func pointToPubKey
+//@ assume-contract deterministic function of the curve point (compressed affine encoding)
+//@ pure
+
+//@ func scalarToSecretShare
+//@ assume-contract deterministic function of the scalar (big-endian encoding)
+//@ pure
+
+//@ func slices.Sort
+//@ assume-contract standard library: sorts x in place (ascending), keeping its elements
+//@ assigns x
+//@ ensures len(x) == len(old(x)) && forall(i, 0, len(x), forall(j, i, len(x), x[i] <= x[j]))
+//@ ensures forall(i, 0, len(x), exists(j, 0, len(x), old(x)[j] == x[i])) && forall(j, 0, len(x), exists(i, 0, len(x), old(x)[j] == x[i]))
+
+// pubSharesOf(m, all, v): m holds exactly the round 2 verification shares of validator v, keyed by source.
+//@ spec func pubSharesOf(m map[int]tbls.PublicKey, all map[msgKey]frost.Round2Bcast, v uint32) bool = forallk(k, all, k.ValIdx == v ==> has(m, int(k.SourceID)) && m[int(k.SourceID)] == res(0, pointToPubKey(all[k].VkShare))) && forallk(s, m, existsk(k, all, k.ValIdx == v && int(k.SourceID) == s))
+// shareFor(s, p, all, v): s is built from participant p (validator v): its group key, its secret share and v's public shares.
+//@ spec opaque func shareOf(s share.Share, vk curves.Point, sk curves.Scalar, all map[msgKey]frost.Round2Bcast, v uint32) bool = s.PubKey == res(0, pointToPubKey(vk)) && s.SecretShare == res(0, scalarToSecretShare(sk)) && pubSharesOf(s.PublicShares, all, v)
+//@ spec func shareFor(s share.Share, p *frost.DkgParticipant, all map[msgKey]frost.Round2Bcast, v uint32) bool = shareOf(s, p.VerificationKey, p.SkShare, all, v)
+
+//@ func makeShares
+//@ props C11
+//@ requires forallk(k, r2Result, k.TargetID == 0 && has(validators, k.ValIdx))
+//@ ensures r1 == nil ==> len(r0) == len(validators)
+//@ ensures r1 == nil ==> forall(i, 0, len(r0), existsk(x, validators, shareFor(r0[i], validators[x], r2Result, x)))
+//@ ensures r1 == nil ==> forallk(x, validators, exists(i, 0, len(r0), shareFor(r0[i], validators[x], r2Result, x)))
+//@ ensures r1 == nil ==> forall(i, 0, len(r0), forall(j, i, len(r0), existsk(x, validators, existsk(y, validators, x <= y && shareFor(r0[i], validators[x], r2Result, x) && shareFor(r0[j], validators[y], r2Result, y)))))
+//@ loop 1 invariant forall(j, 0, $i, has(pubShares, $ks[j].ValIdx) && has(pubShares[$ks[j].ValIdx], int($ks[j].SourceID)) && pubShares[$ks[j].ValIdx][int($ks[j].SourceID)] == res(0, pointToPubKey(r2Result[$ks[j]].VkShare)))
+//@ loop 1 invariant forallk(v, pubShares, forallk(s, pubShares[v], exists(j, 0, $i, $ks[j].ValIdx == v && int($ks[j].SourceID) == s)))
+//@ loop 2 invariant len(vIdxs) == $i && forall(j, 0, $i, vIdxs[j] == int($ks[j]) && vIdxs[j] >= 0 && vIdxs[j] <= 4294967295)
+//@ after slices.Sort: forallk(v, validators, pubSharesOf(pubShares[v], r2Result, v))
+//@ after slices.Sort: len(vIdxs) == len(validators)
+//@ after slices.Sort: forall(i, 0, len(vIdxs), vIdxs[i] >= 0 && vIdxs[i] <= 4294967295)
+//@ after slices.Sort: forall(i, 0, len(vIdxs), has(validators, uint32(vIdxs[i])))
+//@ after slices.Sort: forallk(x, validators, exists(i, 0, len(vIdxs), vIdxs[i] == int(x)))
+//@ after slices.Sort: forall(i, 0, len(vIdxs), forall(j, i, len(vIdxs), vIdxs[i] <= vIdxs[j]))
+//@ loop 3 invariant len(shares) == $i && forall(j, 0, $i, shareFor(shares[j], validators[uint32(vIdxs[j])], r2Result, uint32(vIdxs[j])))
+//@ loop 3 invariant forallk(x, validators, forall(j, 0, $i, vIdxs[j] == int(x) ==> shareFor(shares[j], validators[x], r2Result, x)))
+//@ canary r1 != nil
+
+//@ func (f *frostP2P) Round1
+//@ props C11
+//@ callreq makeRound1Response: len(a1) == len(f.peers) && len(a2) == len(f.peers) - 1
+//@ callreq f.bcastFunc: a2 == round1CastID && a3 == casts
+//@ ensures r2 == nil ==> ncalls(makeRound1Response) == 1 && ncalls(f.bcastFunc) == 1
+//@ loop 1 invariant true
+//@ loop 2 invariant true
+//@ loop 3 invariant true
+//@ loop 4 invariant ncalls(makeRound1Response) == 0 && ncalls(f.bcastFunc) == 1
+
+//@ func (f *frostP2P) Round2
+//@ props C11
+//@ callreq makeRound2Response: len(a1) == len(f.peers)
+//@ callreq f.bcastFunc: a2 == round2CastID && a3 == casts
+//@ ensures r1 == nil ==> ncalls(makeRound2Response) == 1 && ncalls(f.bcastFunc) == 1
+//@ loop 1 invariant true
+//@ loop 2 invariant ncalls(makeRound2Response) == 0 && ncalls(f.bcastFunc) == 1
+
+//@ pure pb.FrostRound1ShamirShare.GetId pb.FrostRound1ShamirShare.GetValue
+
+//@ func keyToProto
+//@ props C11
+//@ ensures result != nil && result.ValIdx == key.ValIdx && result.SourceId == key.SourceID && result.TargetId == key.TargetID
+
+//@ func keyFromProto
+//@ props C11
+//@ ensures (r1 == nil) <==> (key != nil)
+//@ ensures r1 == nil ==> r0.ValIdx == key.GetValIdx() && r0.SourceID == key.GetSourceId() && r0.TargetID == key.GetTargetId()
+
+//@ func shamirShareToProto
+//@ props C11
+//@ ensures result != nil && result.Key != nil && result.Key.ValIdx == key.ValIdx && result.Key.SourceId == key.SourceID && result.Key.TargetId == key.TargetID
+//@ ensures result.Id == shamir.Id && result.Value == shamir.Value
+
+//@ func shamirShareFromProto
+//@ props C11
+//@ ensures r2 == nil ==> shamir != nil && shamir.GetKey() != nil
+//@ ensures r2 == nil ==> r0.ValIdx == shamir.GetKey().GetValIdx() && r0.SourceID == shamir.GetKey().GetSourceId() && r0.TargetID == shamir.GetKey().GetTargetId()
+//@ ensures r2 == nil ==> r1.Id == shamir.GetId() && r1.Value == shamir.GetValue()
